@@ -131,11 +131,13 @@ CHECKS = {
         "non-negativity, pool == serial, Prolongate.",
    note="One random mesh per curve per run. Trusted: numpy.linalg.solve."),
  "C03": dict(level="exploration", design="§5 C03", engine="adaptiveloop",
-   technique="AdaptiveLoop.tla (driver protocol, configuration table) model-checked; unmodified example.py and the driver's entry points on refined meshes executed for all 24 accepted combinations; per-leaf orthogonality judged by TLC (TraceLoop)",
+   technique="AdaptiveLoop.tla (driver protocol, observable steps, configuration table) and Sessions.tla (working directory shared by several runs) model-checked; unmodified example.py run to its first residual, for complete iterations and in multi-run sessions, the driver's entry points on refined meshes, for all 24 accepted combinations; per-leaf orthogonality and protocol judged by TLC (TraceLoop)",
    text="For every accepted (problem, domain) and both values of the straight-panel switch the unmodified example.py is run under runpy to its first residual and the driver's own lines are executed on randomly refined meshes; "
         "mat @ Phi = rhs is checked and for every leaf |int r| <= 5e-5 int |r| + 1e-12 with an independent graded tensor rule whose break points are the mesh lines crossing the leaf; TLC validates the phase events "
-        "against the protocol, judges every leaf record and demands all 24 combinations.",
-   note="Meshes up to ~25 leaves in the quick tier. Trusted: the graded element integrator."),
+        "against the protocol, judges every leaf record and demands all 24 combinations. Complete iterations of the driver (uniform / isotropic / anisotropic, with and without grading) must show exactly the "
+        "observable steps ExpectedIter(cfg) of AdaptiveLoop.tla, with orthogonality judged on every mesh the driver produces; two-run and five-run sessions from one working directory must load exactly the files "
+        "Sessions.tla says (and stay orthogonal); the residual is also evaluated with its quadrature nodes in descending and shuffled order.",
+   note="Meshes up to ~25 leaves in the quick tier (thorough: up to 4 driver iterations, 24 random refinements). Trusted: the graded element integrator."),
 }
 
 NOT_YET = {}
@@ -181,7 +183,7 @@ def main():
             {"name": "estimators", "path": "/verif/spec/Estimators.tla", "serves_properties": ["C09", "C20"],
              "kind_free_text": "patch structure of the Sobolev estimator and child order / sign patterns of the two-level estimators on top of STMesh"},
             {"name": "adaptiveloop", "path": "/verif/spec/AdaptiveLoop.tla", "serves_properties": ["C03"],
-             "kind_free_text": "protocol of the adaptive driver example.py; trace judge spec/trace/TraceLoop.tla; worker harness/c03_worker.py"},
+             "kind_free_text": "protocol of the adaptive driver example.py (+ spec/Sessions.tla: several runs from one working directory); trace judge spec/trace/TraceLoop.tla; workers harness/c03_worker.py, harness/loop_worker.py"},
             {"name": "assembly", "path": "/verif/spec/Assembly.tla", "serves_properties": ["C17"],
              "kind_free_text": "TLA+ model of the assembly paths / pool / cache; behaviours replayed on real files and pools; judge spec/trace/TraceAssembly.tla"},
             {"name": "paraminit", "path": "/verif/spec/ParamInit.tla", "serves_properties": ["C18"],
